@@ -4,9 +4,10 @@ Model: LinVerif/Model/C01MultiOut.lean. Only the property theorems, ties and non
 -/
 import LinVerif.Model.C01MultiOut
 import LinVerif.Generated.C01
+import LinVerif.Lemmas.C01MultiOut
 
 namespace LinVerif.Props.C01MultiOut
-open LinVerif LinVerif.Kv.MO
+open LinVerif LinVerif.Kv.MO LinVerif.Lemmas.C01MultiOut
 
 /-- every file of the version is in the directory; every finished output is in the directory and protected
 (pending) or installed (version); the table being written is in the directory and pending. -/
@@ -91,6 +92,7 @@ mergeCompaction defers, i.e. AFTER installCompactionResults returned) and NOT in
 finishCompactionOutputFile; a new table number is pending before its file is created. -/
 theorem tie_output_release_points :
     codeCfg = ⟨false, true⟩ ∧
+    (Generated.C01.cleanupCompactionSteps.filter (fun c => releaseNames.contains c)).length = 2 ∧
     Generated.C01.mergeCompactionDeferCalls.head? = some "c.cleanupCompaction" ∧
     Generated.C01.mergeCompactionCalls.filter (fun c => ["defer:?", "c.doMerge", "c.installCompactionResults"].contains c)
       = ["defer:?", "c.doMerge", "c.installCompactionResults"] ∧
@@ -128,6 +130,37 @@ example : run codeCfg (initSt [2, 4] 6) (jobSchedule 3 1 2) =
 example : Inv (run codeCfg (initSt [2, 4] 6) ((List.replicate 1 [Ev.openOut, Ev.finishOut]).flatten ++ [Ev.cleanup])) ∧
     (run codeCfg (initSt [2, 4] 6) ((List.replicate 1 [Ev.openOut, Ev.finishOut]).flatten ++ [Ev.cleanup])).disk = [6, 2, 4] :=
   ⟨outputs_survive_concurrent_cleanup _ _ (inv_init _ _), by decide⟩
+
+/-- the job's program, for EVERY number of outputs k, every park point j ≤ k and every number c of foreign
+cleanups at that point: the committed version is exactly the k output tables (numbers next .. next+k-1, the
+inputs are gone), and every one of them is in the directory. -/
+theorem job_commits_exactly_its_outputs (inputs : List Int) (next : Int) (k j c : Nat) (hj : j ≤ k) :
+    (run codeCfg (initSt inputs next) (jobSchedule k j c)).version = (List.range k).map (fun (i : Nat) => next + (i : Int)) ∧
+    missing (run codeCfg (initSt inputs next) (jobSchedule k j c)) = [] := by
+  refine ⟨?_, committed_version_files_exist inputs next _⟩
+  have hs : jobSchedule k j c = pairs j ++ (List.replicate c Ev.cleanup ++ (pairs (k - j) ++ [Ev.commit true, Ev.jobCleanup, Ev.cleanup])) := by
+    simp [jobSchedule, pairs]
+  rw [hs, run_append, run_append, run_append]
+  obtain ⟨a1, b1, c1, d1, e1⟩ := run_pairs codeCfg j (initSt inputs next) rfl
+  generalize run codeCfg (initSt inputs next) (pairs j) = s1 at *
+  obtain ⟨a2, b2, c2, d2, e2⟩ := run_cleanups codeCfg c s1
+  generalize run codeCfg s1 (List.replicate c Ev.cleanup) = s2 at *
+  obtain ⟨a3, b3, c3, d3, e3⟩ := run_pairs codeCfg (k - j) s2 (by rw [c2, c1])
+  generalize run codeCfg s2 (pairs (k - j)) = s3 at *
+  have hv : (run codeCfg s3 [Ev.commit true, Ev.jobCleanup, Ev.cleanup]).version
+      = s3.version.filter (fun f => !s3.inputs.contains f) ++ s3.outputs := by
+    simp [run, step]
+  rw [hv, d3, d2, d1, e3, e2, e1, a3, a2, a1, b2, b1]
+  simp only [initSt, filter_not_self, List.nil_append]
+  have hk : k = j + (k - j) := by omega
+  conv => rhs; rw [hk, List.range_add, List.map_append, List.map_map]
+  congr 1
+  apply List.map_congr_left
+  intro i _
+  simp only [Function.comp]
+  omega
+
+example : (run codeCfg (initSt [2, 4] 6) (jobSchedule 3 1 2)).version = [6, 7, 8] := by decide
 
 namespace Counterfactual
 
